@@ -252,9 +252,9 @@ pub open spec fn stack_wit_len(stack: Seq<Vec<u8>>) -> nat decreases stack.len()
 pub open spec fn wit_len_of(uck: Option<(SecretKey, Vec<Vec<u8>>)>) -> nat {
     match uck { Some(ks) => stack_wit_len(ks.1@), None => 33 }
 }
-// `match uck { Some((_key, stack)) => stack.iter().map(|v| 1 + v.len()).sum(), None => 33 }` (iterator sum: std semantics)
+// `stack.iter().map(|v| 1 + v.len()).sum()` (iterator sum: std semantics)
 #[verifier::external_body]
-pub fn vx_wit_len(uck: &Option<(SecretKey, Vec<Vec<u8>>)>) -> (r: usize) ensures r == wit_len_of(*uck), r < 0x1_0000_0000 { unimplemented!() }
+pub fn vx_stack_wit_len(stack: &Vec<Vec<u8>>) -> (r: usize) ensures r == stack_wit_len(stack@), r < 0x1_0000_0000 { unimplemented!() }
 pub open spec fn weight_lb(tx: Transaction, ucks: Seq<Option<(SecretKey, Vec<Vec<u8>>)>>, prev: Seq<TxOut>, k: int) -> nat decreases k {
     if k <= 0 { tx_weight(tx) }
     else { weight_lb(tx, ucks, prev, k - 1) + (if spend_type_of(prev[k - 1].script_pubkey) is Invalid { 0nat } else { 77 + wit_len_of(ucks[k - 1]) }) }
@@ -325,7 +325,7 @@ impl VxNodeOn {
 //@sub /tx\.weight\(\)\.to_wu\(\) as usize/ => vx_tx_weight(tx)
 //@sub /for \(idx, uck\) in uniclosekeys\.iter\(\)\.enumerate\(\) \{/ => for idx in 0..uniclosekeys.len() { let uck = vx_index(uniclosekeys, idx);
 //@sub /&prev_outs\[idx\]\.script_pubkey/ => &vx_index(prev_outs, idx).script_pubkey
-//@sub /(?s)match uck \{\s*Some\(\(_key, stack\)\) => stack\.iter\(\)\.map\(\|v\| 1 \+ v\.len\(\)\)\.sum\(\),\s*None => 33,\s*\}/ => vx_wit_len(uck)
+//@sub /stack\.iter\(\)\.map\(\|v\| 1 \+ v\.len\(\)\)\.sum\(\)/ => vx_stack_wit_len(stack)
 //@loop 1 iter=itw
             invariant
                 itw.snapshot.end == uniclosekeys@.len(), uniclosekeys@.len() < 0x1_0000,
